@@ -316,8 +316,15 @@ TriCases == {[n |-> n, v |-> v] : n \in (0 .. Small) \cup {b % 1000 : b \in Big}
 (*  minimum norm:   BMN = A^T*XMN with XMN = Q1*Y0 in range(A), so XMN is   *)
 (*                  the minimum norm solution of A^T*X = BMN.               *)
 (* The transposed array drives the m < n cases of Dgels.  Variant 1 plants  *)
-(* r_kk = 0 (rank deficient: ok must be false).  Scaling of A and B by      *)
-(* powers of two (exact) multiplies the answers by 2^(eb-ea).               *)
+(* r_kk = 0 (rank deficient: ok must be false).  Scaling of A by 2^ea and of *)
+(* B by 2^eb (powers of two: exact) multiplies the answers by 2^(eb-ea):    *)
+(* argmin ||2^ea*A*X - 2^eb*B|| = 2^(eb-ea) * argmin ||A*X - B||, and the    *)
+(* minimum norm solution scales the same way.  The instance lists the       *)
+(* scalings to run (scal; scalx in addition in the thorough tier): A and B   *)
+(* separately by 2^+-1000, beyond the thresholds 2^-970 / 2^970 at which     *)
+(* Dgels rescales internally, for every shape, both trans values and         *)
+(* nrhs in snrhs as well as Nrhs.  With max|a_ij| = 16 and |x| <= 4 every    *)
+(* scaled operand and answer is representable.                               *)
 (* PlantedLemmas!LsLemma checks the normal equations A^T(A*X0 - BLS) = 0,   *)
 (* A^T*XMN = BMN and XMN = A*W for an integer-rational W (range condition   *)
 (* through Q2^T*XMN = 0).                                                   *)
@@ -344,6 +351,9 @@ LsInst(m, n, v) ==
   IN [fam |-> "ls", m |-> m, n |-> n, v |-> v, den |-> 1, ok |-> (v = 0), kz |-> kz, R |-> R,
       A |-> MatSeq(A, m, n), X |-> MatSeq(X0, n, R), B |-> MatSeq(BLS, m, R),
       XMN |-> MatSeq(XMN, m, R), BMN |-> MatSeq(BMN, n, R),
+      scal |-> IF v = 0 /\ n > 0 THEN <<<<0, 0>>, <<1000, 0>>, <<0 - 1000, 0>>, <<0, 1000>>, <<0, 0 - 1000>>>> ELSE <<<<0, 0>>>>,
+      scalx |-> IF v = 0 /\ n > 0 THEN <<<<500, 0 - 400>>, <<990, 10>>, <<0 - 990, 0 - 10>>>> ELSE <<>>,
+      snrhs |-> <<1, 2>>,
       Q |-> MatSeq(Mat(m, m, LAMBDA i, t : IF perm[t] = i THEN sg[t] ELSE 0), m, m),
       tol |-> 100 * Max(m, 1) * (1 + NormMax(X0, n, R) + NormMax(XMN, m, R))]
 
